@@ -14,7 +14,8 @@ def run(tier, seed):
     common.PID_ALIAS.update({"SQLM": "C08", "KVW": "C08", "KVM": "C08"})
     from .. import extra
     return common.drop_foreign(sqlm.suites_c08(tier, seed) + kvb.suites_c08(tier, seed)
-                               + [extra.suite_removed_unreachable_after_read(tier, seed, ("delete5",)), extra.suite_int_tag_items(tier, seed)], "C08")
+                               + [extra.suite_removed_unreachable_after_read(tier, seed, ("delete5",)), extra.suite_int_tag_items(tier, seed), extra.suite_replay_after_removal(tier, seed, only_fields=("deletion-of-a-victim",)),
+                                  extra.suite_close_drains_queue(tier, seed)], "C08")
 
 
 def replay(payload):
